@@ -57,6 +57,12 @@ def build_model(rng, lane, idx, min_states=1, max_states=4, max_params=4, time_d
         c.times = np.arange(1, K + 1)
         c.t0 = 0.5
         c.classes = list(c.classes) + ["integer-times-fractional-t0"]
+    elif int_times and rng.random() < 0.12:
+        # a calendar-like clock: ordinal day numbers / years, observation spacing tiny relative to the absolute time
+        off = float(rng.choice([737425.0, 2020.0, 1.0e5]))
+        c.t0 = c.t0 + off
+        c.times = np.asarray(c.times, dtype=float) + off
+        c.classes = list(c.classes) + ["offset-clock"]
     c.m.parameters = list(c.theta)
     c.m.initial_values = (list(c.x0), c.t0)
     return c
